@@ -230,6 +230,7 @@ def c10(run):
     mc_vectors(run, "CelEvalMC_C10_maps")
     if run.tier == "thorough":
         mc_vectors(run, "CelEvalMC_C10_lists")
+        mc_vectors(run, "CelEvalMC_C10_chain")      # macros chained on macros (<= 3 operators) with logging / erroring compound leaves
     run.exhaustive = True
     path = drive_eval(run, "c10", run.q(1500, 40000))
     validate_trace(run, "CelEvalTrace", path, nontrivial=lambda c: '"comp"' in json.dumps(c.get("ast")))
